@@ -1,44 +1,79 @@
 #!/usr/bin/env python3
-# Registers every function under contract with every claimed property whose anchor files contain the function's source file.
-import json,re,os
+# Registers every function under (checked) contract with every claimed property
+#  (a) whose anchor files contain the function's source file, or
+#  (b) that reaches it in the (textual, over-approximated) call graph from the functions of its anchor files or from
+#      functions already registered for it: a property depends on everything its code calls, and a change inside a callee
+#      is only noticed by the callee's own contract.
+# (b) matches calls by bare name: same-package calls, pkg-qualified calls, and method calls whose name is carried by at most
+#     three contracted functions (generic names like String/Close/Match are followed only inside the same package).
+import json,re,os,collections
 props=[json.loads(l) for l in open('/verif/properties.jsonl')]
 P=json.load(open('/verif/props.json'))
 D={e['id']:e for e in P}
-contracts=[]
+contracts={}
 for root,_,fs in os.walk('/repo'):
     for f in fs:
         if f=='zz_verif_contracts.go':
-            pkg=os.path.relpath(root,'/repo')
-            cur=None
+            pkg=os.path.relpath(root,'/repo'); cur=None
             for l in open(os.path.join(root,f)):
                 m=re.match(r'//@ func (.+?)\s*$',l)
-                if m: cur=(pkg,m.group(1)); contracts.append([cur,False]); continue
-                if cur and re.match(r'//@\s+trusted\s*$',l): contracts[-1][1]=True
-def funcs_in(path):
+                if m: cur=(pkg,m.group(1)); contracts[cur]=False; continue
+                if cur and re.match(r'//@\s+trusted\s*$',l): contracts[cur]=True
+checked=[c for c,t in contracts.items() if not t]
+def base(name): return re.sub(r'^\(.*\)\.','',name.split('$')[0])
+byname=collections.defaultdict(list)
+for c in checked: byname[base(c[1])].append(c)
+# function bodies of the whole repo (non-test go files)
+bodies={}   # (pkg, name) -> text
+filefuncs=collections.defaultdict(set)
+for root,dirs,fs in os.walk('/repo'):
+    if '/.git' in root: continue
+    for f in fs:
+        if not f.endswith('.go') or f.endswith('_test.go') or f=='zz_verif_contracts.go': continue
+        path=os.path.join(root,f); pkg=os.path.relpath(root,'/repo')
+        src=open(path,errors='replace').read().split('\n'); i=0
+        while i<len(src):
+            m=re.match(r'^func (\([^)]*\) )?([A-Za-z_0-9]+)[\[(]',src[i])
+            if m:
+                j=i
+                while j<len(src) and src[j]!='}': j+=1
+                recv=m.group(1); name=m.group(2)
+                if recv:
+                    r=recv.strip()[1:-1].split()[-1]; r=re.sub(r'\[.*\]','',r); name='(%s).%s'%(r,name)
+                bodies[(pkg,name)]='\n'.join(src[i+1:j]); filefuncs[os.path.relpath(path,'/repo')].add((pkg,name))
+                i=j
+            i+=1
+def callees(fn):
+    pkg=fn[0]; body=bodies.get((pkg,fn[1].split('$')[0]))
     out=set()
-    src=open(path).read()
-    for m in re.finditer(r'^func (\([^)]*\) )?([A-Za-z_0-9]+)[\[(]',src,re.M):
-        recv=m.group(1); name=m.group(2)
-        if recv:
-            r=recv.strip()[1:-1].split()[-1]; r=re.sub(r'\[.*\]','',r)
-            out.add('(%s).%s'%(r,name))
-        else: out.add(name)
+    if body is None: return out
+    for m in re.finditer(r'(?:([A-Za-z_][A-Za-z_0-9]*)\.)?([A-Za-z_][A-Za-z_0-9]*)\(',body):
+        q,n=m.group(1),m.group(2)
+        cands=byname.get(n)
+        if not cands: continue
+        for c in cands:
+            if c[0]==pkg: out.add(c)                                   # same package (function or method)
+            elif q and os.path.basename(c[0])==q and not c[1].startswith('('): out.add(c)   # pkg.Func
+            elif q and c[1].startswith('(') and len(cands)<=3: out.add(c)  # x.Method with a rare name
     return out
-cache={}
-added=0
+added_a=added_b=0
 for p in props:
     if p['id'] not in D: continue
     have={(f['pkg'],f['name']) for f in D[p['id']]['functions']}
+    start=set()
     for f in p['anchors']['files']:
-        path='/repo/'+f
-        if not (os.path.isfile(path) and f.endswith('.go') and not f.endswith('_test.go')): continue
-        pkg=os.path.dirname(f)
-        if path not in cache: cache[path]=funcs_in(path)
-        for (c,trusted) in contracts:
-            if trusted or c[0]!=pkg: continue
-            base=c[1].split('$')[0]
-            if base in cache[path] and c not in have:
-                D[p['id']]['functions'].append({'pkg':c[0],'name':c[1]}); have.add(c); added+=1
+        if f in filefuncs:
+            start|=filefuncs[f]
+            for c in checked:
+                if (c[0],c[1].split('$')[0]) in filefuncs[f] and c not in have:
+                    D[p['id']]['functions'].append({'pkg':c[0],'name':c[1]}); have.add(c); added_a+=1
+    work=list(start|have); seen=set(work)
+    while work:
+        fn=work.pop()
+        for c in callees(fn):
+            if c not in have:
+                D[p['id']]['functions'].append({'pkg':c[0],'name':c[1]}); have.add(c); added_b+=1
+            if c not in seen: seen.add(c); work.append(c)
 json.dump(P,open('/verif/props.json','w'),indent=1)
-print('added',added)
+print('added by anchor file',added_a,'by call graph',added_b)
 for e in P: print(e['id'],len(e['functions']))
